@@ -32,6 +32,10 @@ type Opts struct {
 	// "name = path '.' ID" hands the identifier on). Parents and _onBounds see that token; the
 	// span reported by _onBounds must still be the span of the reduction.
 	TokMask uint64
+	// AnyMask: bit i set = the actions of rule i (if eligible, see AnyRules) declare every parameter
+	// as `any`, so that ALL productions of the rule with the same number of terms share one method
+	// although their terms have different Go types (Token / *nodeT / []*nodeT ... at one position).
+	AnyMask uint64
 	// PtrDiscard: Token (a value type, the element type of TOKEN*! lists) declares Discard with a
 	// pointer receiver; x*! must find it all the same (elements are addressable).
 	PtrDiscard bool
@@ -98,6 +102,29 @@ func TokRules(g *G, mask uint64, nilRules map[string]bool) map[string]bool {
 				}
 			}
 			ok = ok && plain
+		}
+		if ok {
+			out[r.Name] = true
+		}
+	}
+	return out
+}
+
+// AnyRules lists the rules whose action parameters are all declared `any` under mask: rules
+// without @error terms (their actions read the Error's fields) that do not return a Token.
+func AnyRules(g *G, mask uint64, tokRules map[string]bool) map[string]bool {
+	out := map[string]bool{}
+	for i, r := range g.Rules {
+		if i >= 64 || mask&(1<<uint(i)) == 0 || tokRules[r.Name] {
+			continue
+		}
+		ok := true
+		for _, p := range r.Prods {
+			for _, t := range p.Terms {
+				if t.Kind == KErr || t.Name == "ERROR" {
+					ok = false
+				}
+			}
 		}
 		if ok {
 			out[r.Name] = true
@@ -408,7 +435,12 @@ func (p *prs) _onBounds(r any, begin, end Token) {
 		}
 		return ParamType(t, o)
 	}
+	anyRules := AnyRules(g, o.AnyMask, tokRules)
 	for ri, r := range g.Rules {
+		ptype := ptype
+		if anyRules[r.Name] {
+			ptype = func(Term) string { return "any" }
+		}
 		if o.OnBounds && o.BoundsLayout == 2 && ri == nRules/2 {
 			b.WriteString("\nfunc (p *prs) helperBefore() int { return p.seq }\n")
 			b.WriteString(onBoundsSrc)
